@@ -1,4 +1,5 @@
 (* C12 — patch metadata describe the patch, and patch i belongs to centre i. *)
+From Coq Require Import Permutation.
 From Verif Require Import Prelude Metadata MetadataP.
 Open Scope Q_scope.
 
@@ -41,6 +42,60 @@ Theorem C12_guard_refuses_beyond_radius : forall ids1 ids2 dists radii rtol d r,
 Proof. exact guard_refuses_beyond_radius. Qed.
 Print Assumptions C12_guard_refuses_beyond_radius.
 
+Theorem C12_option_precedence :
+  (forall name num, determine true name num = Some Apply) /\
+  (forall num, determine false true num = Some Divide) /\
+  determine false false true = Some Create /\
+  determine false false false = None.
+Proof. exact determine_precedence. Qed.
+Print Assumptions C12_option_precedence.
+
+Theorem C12_nearest_is_minimal : forall row j, (j < length row)%nat -> nth (argmin row) row 0 <= nth j row 0.
+Proof. exact argmin_min. Qed.
+Print Assumptions C12_nearest_is_minimal.
+
+Theorem C12_strictly_nearest_is_assigned : forall row k,
+  (k < length row)%nat -> (forall j, (j < length row)%nat -> j <> k -> nth k row 0 < nth j row 0) -> argmin row = k.
+Proof. exact argmin_unique. Qed.
+Print Assumptions C12_strictly_nearest_is_assigned.
+
+Theorem C12_given_centres_partition : forall (R : Type) (f : R -> nat) (chunks : list (chunk R)) p,
+  patch_data (Some f) chunks p = Some (filter (fun r => (f r =? p)%nat) (concat (map recs chunks))).
+Proof. exact @apply_partition. Qed.
+Print Assumptions C12_given_centres_partition.
+
+Theorem C12_given_centres_ignore_column : forall (R : Type) (f : R -> nat) (chunks chunks' : list (chunk R)) p,
+  map recs chunks = map recs chunks' -> patch_data (Some f) chunks p = patch_data (Some f) chunks' p.
+Proof. exact @apply_ignores_column. Qed.
+Print Assumptions C12_given_centres_ignore_column.
+
+Theorem C12_given_centres_any_chunking : forall (R : Type) (f : R -> nat) (chunks chunks' : list (chunk R)) p,
+  concat (map recs chunks) = concat (map recs chunks') -> patch_data (Some f) chunks p = patch_data (Some f) chunks' p.
+Proof. exact @apply_any_chunking. Qed.
+Print Assumptions C12_given_centres_any_chunking.
+
+Theorem C12_given_centres_any_arrival_order : forall (R : Type) (f : R -> nat) (chunks arrived : list (chunk R)) p l r,
+  Permutation arrived chunks -> patch_data (Some f) arrived p = Some l ->
+  (In r l <-> In r (concat (map recs chunks)) /\ f r = p).
+Proof. exact @apply_belongs_any_order. Qed.
+Print Assumptions C12_given_centres_any_arrival_order.
+
+Theorem C12_centres_reproduce_partition : forall (chunks arrived : list (chunk (list Q))) p l row,
+  Permutation arrived chunks -> (forall ch r, In ch chunks -> In r (recs ch) -> r <> []) ->
+  patch_data (Some argmin) arrived p = Some l -> In row l -> own_centre_nearest row p = true.
+Proof. exact apply_reproduces_partition. Qed.
+Print Assumptions C12_centres_reproduce_partition.
+
+Theorem C12_column_first_refuted :
+  exists (ch : chunk (list Q)) (row : list Q),
+    patch_data_colfirst (Some argmin) [ch] 0 = Some [row] /\ own_centre_nearest row 0 = false /\
+    patch_data (Some argmin) [ch] 0 = Some [] /\ patch_data (Some argmin) [ch] 1 = Some [row].
+Proof. exact column_first_refuted. Qed.
+Print Assumptions C12_column_first_refuted.
+
 Example C12_concrete :
-  radius (compute [1#2; 3#4; 1#4] None) = 3#4 /\ guard [0;1]%nat [0;1]%nat [1#10; 3#4] [1; 1] (1#2) = false.
-Proof. vm_compute. split; reflexivity. Qed.
+  radius (compute [1#2; 3#4; 1#4] None) = 3#4 /\ guard [0;1]%nat [0;1]%nat [1#10; 3#4] [1; 1] (1#2) = false /\
+  patch_data (Some argmin) [ {| recs := [[1#4; 3#4]; [3#4; 1#4]]; col := Some [1; 0]%nat |};
+                             {| recs := [[1#8; 1#2]]; col := Some [1]%nat |} ] 0 = Some [[1#4; 3#4]; [1#8; 1#2]] /\
+  c12_split_case true true false [[1#4; 3#4]; [3#4; 1#4]] (Some [1; 0]%nat) [1; 0]%nat = 3%nat.
+Proof. vm_compute. repeat split; reflexivity. Qed.
